@@ -45,6 +45,24 @@ def skip (s : Stream) (n : Nat) : Option Stop × Stream :=
   if n ≤ s.data.length then (none, { s with data := s.data.drop n })
   else (some (if s.fail then .ioerr else .ueof), s.drained)
 
+theorem readFull_got {s s' : Stream} {n : Nat} {b : Bytes} (h : readFull s n = .got b s') :
+    s'.data.length + n = s.data.length ∧ b.length = n ∧ s'.fail = s.fail := by
+  unfold readFull at h
+  split at h
+  · cases h; simp_all
+  · split at h
+    · cases h; simp; omega
+    · cases h
+
+theorem readFull_stop {s s' : Stream} {n : Nat} {k : Stop} (h : readFull s n = .stop k s') :
+    s'.data = [] ∧ s'.fail = s.fail := by
+  unfold readFull at h
+  split at h
+  · cases h
+  · split at h
+    · cases h
+    · cases h; simp [Stream.drained]
+
 /-- little-endian / big-endian 32 and 16 bit reads (encoding/binary). -/
 def rd32 (be : Bool) (a b c d : UInt8) : Nat := if be then be32 a b c d else be32 d c b a
 def rd16 (be : Bool) (a b : UInt8) : Nat := if be then be16 a b else be16 b a
